@@ -25,7 +25,7 @@ func init() {
 		MinEvals:    floor(3900, 110000),
 		MinDistinct: floor(2500, 60000),
 		RequiredCells: func(string) []string {
-			cells := []string{"far-bounds/inv-exp", "far-bounds/exp>292y", "scale", "scale/long-chain", "scale/deep-command", "scale/many-statements", "scale/principal-thrice", "hook", "meta-plain", "meta-enc", "nonce-long", "cause", "iat=1", "iat=2", "iat=3", "inv-exp", "self-delegation", "subject=invoker", "equal-commands", "top-root", "policy/ipld", "policy/constructors", "no-policy"}
+			cells := []string{"vacuous", "vacuous/no-arguments", "vacuous/unrelated-argument", "far-bounds/inv-exp", "far-bounds/exp>292y", "scale", "scale/long-chain", "scale/deep-command", "scale/many-statements", "scale/principal-thrice", "hook", "meta-plain", "meta-enc", "nonce-long", "cause", "iat=1", "iat=2", "iat=3", "inv-exp", "self-delegation", "subject=invoker", "equal-commands", "top-root", "policy/ipld", "policy/constructors", "no-policy"}
 			for _, a := range []string{"unset", "subject", "invoker", "third", "chain"} {
 				cells = append(cells, "audience="+a)
 			}
@@ -48,6 +48,7 @@ func init() {
 
 func runC05(w *mon.W) {
 	c05Scale(w)
+	c05Vacuous(w)
 	r := w.Rng
 	total := w.Share(w.Pick(4000, 120000))
 	for it := 0; it < total; it++ {
@@ -291,6 +292,77 @@ func c05Scale(w *mon.W) {
 				w.Violate("denied/scale/"+classifyErr(e), fmt.Sprintf("a rule-conforming chain (%d links, command depth %d, %d statements) was denied on %s: %s", n, depth, npol, d["call"], errStr(e)), d)
 				break
 			}
+		}
+	}
+}
+
+// c05Vacuous: conforming chains whose policies are satisfied by ABSENCE: every statement is a
+// leaf over an optional selector that finds nothing (the property of C11: a statement over
+// missing optional data passes), and the invocation carries no arguments at all, or only
+// unrelated ones. Nothing is violated, so the chain must be allowed.
+func c05Vacuous(w *mon.W) {
+	r := w.Rng
+	for it := 0; it < w.Share(w.Pick(300, 6000)); it++ {
+		n := 1 + r.IntN(4)
+		s := chain.Conformant(r, n, 3)
+		switch it % 3 {
+		case 0:
+			s.Args = ref.Map()
+			w.Cover("vacuous/no-arguments")
+		case 1:
+			s.Args = ref.Map(ref.E("unrelated", ref.Int(1)))
+			w.Cover("vacuous/unrelated-argument")
+		default:
+			s.Args = ref.Map(ref.E("unrelated", ref.Map(ref.E("k", ref.Str("v")))), ref.E("n", ref.Int(3)))
+			w.Cover("vacuous/unrelated-argument")
+		}
+		for k := range s.Links {
+			for j := 0; j < r.IntN(3); j++ {
+				sel := ref.Sel{{Kind: ref.SField, Name: gen.Pick(r, []string{"x", "amount", "to"}), Opt: true}}
+				if r.IntN(3) == 0 {
+					sel = ref.Sel{{Kind: ref.SField, Name: "unrelated", Opt: true}, {Kind: ref.SField, Name: "absent", Opt: true}}
+				}
+				var st ref.Stmt
+				switch r.IntN(4) {
+				case 0:
+					st = ref.Stmt{Kind: "==", Sel: sel, Val: ref.Int(1)}
+				case 1:
+					st = ref.Stmt{Kind: gen.Pick(r, []string{"<", "<=", ">", ">="}), Sel: sel, Val: ref.Int(10)}
+				case 2:
+					st = ref.Stmt{Kind: "like", Sel: sel, Pat: "a*"}
+				default:
+					st = ref.Stmt{Kind: "==", Sel: sel, Val: ref.Str("x")}
+				}
+				if _, why := ref.Eval(st, s.Args); why != ref.WOptional {
+					continue // the selector found something after all
+				}
+				s.Links[k].Pol = append(s.Links[k].Pol, st)
+			}
+			s.Links[k].PolIPLD = r.IntN(2) == 0
+		}
+		npol := 0
+		for _, l := range s.Links {
+			npol += len(l.Pol)
+		}
+		if npol == 0 {
+			continue
+		}
+		s.Wire = r.IntN(5)
+		b, err := s.Build(r)
+		if err != nil {
+			w.Inconclusive("C05 vacuous scenario could not be realised: " + err.Error())
+			continue
+		}
+		hook := it%4 == 0
+		e := allowed(b.Inv, b.Loader, hook)
+		w.Eval(1)
+		w.Cover("vacuous")
+		w.Distinct("vacuous", n, s.Args.String(), kindsPerLink(s), s.Wire)
+		if e != nil {
+			d := s.Describe()
+			d["error"] = e.Error()
+			d["hook"] = hook
+			w.Violate("denied/vacuous/"+classifyErr(e), fmt.Sprintf("a rule-conforming chain whose policy statements are all over missing optional data (arguments %s) was denied: %s", s.Args, errStr(e)), d)
 		}
 	}
 }
